@@ -125,9 +125,12 @@ func (r *Runner) dischargeAll(tf *TF, dom Domain, rep *HarnessReport) {
 		g.all = append(g.all, o)
 	}
 	var combined []*Obligation
-	const chunk = 400
 	for _, k := range order {
 		g := groups[k]
+		chunk := (len(g.all) + 63) / 64
+		if chunk > 400 {
+			chunk = 400
+		}
 		for i := 0; i < len(g.all); i += chunk {
 			j := i + chunk
 			if j > len(g.all) {
@@ -165,6 +168,13 @@ func (r *Runner) dischargeAll(tf *TF, dom Domain, rep *HarnessReport) {
 		go func(o *Obligation) {
 			defer wg.Done()
 			r.discharge(tf, dom, o, rep)
+			if len(o.members) > 1 && o.Status != "sat" && o.Status != "unsat" {
+				// inconclusive group query: fall back to one query per path
+				for _, c := range o.members {
+					r.discharge(tf, dom, c, rep)
+				}
+				return
+			}
 			for _, m := range o.members {
 				m.Status, m.Solver, m.Detail, m.Size = o.Status, o.Solver, o.Detail, o.Size
 				if o.Status == "sat" {
@@ -358,21 +368,31 @@ func (r *Runner) finish(opt Options, sel []*ssa.Function, reports []*HarnessRepo
 					if res != "sat" {
 						res = o.Status
 					}
-					fmt.Printf("ENGINE-FAULT harness=%s obligation %q at %s: solver result %s %s\n", rep.Name, o.Label, o.Site, o.Status, o.Detail)
+					fmt.Printf("ENGINE-FAULT harness=%s obligation %q at %s [%s]: solver result %s %s (%.0fs)\n", rep.Name, o.Label, o.Site, choiceSig(o.Choices), o.Status, o.Detail, o.Secs)
 					faults++
 				}
 			}
 			first := g.obls[0]
-			if first.Kind == "unwind" {
-				// an unwind obligation that is reachable means the bound was too small: inconclusive
-				for _, o := range g.obls {
-					if o.Status == "sat" || o.Cond.IsFalse() {
-						unwinds++
-						fmt.Printf("ENGINE-FAULT harness=%s UNWIND %s at %s\n", rep.Name, o.Label, o.Site)
-						faults++
-						break
+			if first.Kind == "unwind" && len(sat) > 0 {
+				// the path beyond the unwinding bound is feasible: either the loop really does not
+				// terminate (native replay hangs or crashes: violation) or the bound is too small (inconclusive)
+				o := sat[0]
+				path, out, err := r.replayObl(prop, rep, o)
+				replays++
+				if err == nil {
+					if c := confirmOutcome(o, out); c != "" {
+						o.Confirmed, o.Replay = c, path
+						if k := r.matchKnown(prop, o); k != nil {
+							knownLines = append(knownLines, fmt.Sprintf("KNOWN-FINDING: property=%s %s [harness=%s label=%q site=%s]", prop, k.What, rep.Name, first.Label, first.Site))
+						} else {
+							violations = append(violations, fmt.Sprintf("VIOLATION property=%s replay=%s harness=%s kind=%s label=%q site=%s (%s)", prop, path, rep.Name, first.Kind, first.Label, first.Site, c))
+						}
+						continue
 					}
 				}
+				unwinds++
+				fmt.Printf("ENGINE-FAULT harness=%s UNWIND %s at %s (native run terminates: bound too small)\n", rep.Name, o.Label, o.Site)
+				faults++
 				continue
 			}
 			if allFolded {
